@@ -126,7 +126,7 @@ def handlePhase (st : DState) (op : String) (j : Json) : Except String (Ledger Ã
     let fifo := if op == "update" then viol18Step env pre post ++ viol04Move env.isEmpty pre post ++ viol18Observed env st.joined pre post ++
       viol06Displacement pre post crow ++ viol06Stuck env.isEmpty pre post else []
     let acct := if probe then [] else viol19Step pre post evs
-    let mon := monitorAll env post ++ viol04 cap post ++ viol04Step pre post ++ viol05Step isEl pre post evs ++ single ++ indep ++ lv ++ fifo ++ acct
+    let mon := monitorAll env post ++ viol04 cap post ++ viol04Step pre post ++ viol04Plug isEl pre evs ++ viol05Step isEl pre post evs ++ single ++ indep ++ lv ++ fifo ++ acct
     pure (ledger', Json.mkObj [("diff", strs d), ("mon", strs mon)])
 
 /-- transition probe: `transition_previous_to_next(sim, env, vehicle's activity, next)` for an
